@@ -51,8 +51,34 @@ func init() {
 	register(&PropCheck{
 		ID:   "C02",
 		Dirs: []string{"z80"},
-		Jobs: func(tier string, seed int64) []Job { return stepJobs(encsOf("alu8", "rot", "bit"), "VStep") },
+		Jobs: func(tier string, seed int64) []Job {
+			jobs := stepJobs(encsOf("alu8", "rot", "bit"), "VStep")
+			mk := func(class, y, f int) {
+				jobs = append(jobs, Job{Dir: "z80", Harness: "VC02Agree", Params: []int{class, y, f}, Label: fmt.Sprintf("VC02Agree/c%d/y%d/f%d", class, y, f)})
+			}
+			for y := 0; y < 8; y++ {
+				for f := 1; f <= 16; f++ {
+					mk(0, y, f)
+				}
+			}
+			for y := 0; y < 2; y++ {
+				for _, f := range []int{1, 2, 3, 4, 5, 6, 7, 9, 10, 11, 12, 13, 14} {
+					mk(1, y, f)
+				}
+			}
+			for class := 2; class <= 5; class++ {
+				for y := 0; y < 8; y++ {
+					for _, f := range []int{1, 2, 3, 4, 5, 6, 7, 13, 14} {
+						mk(class, y, f)
+					}
+				}
+			}
+			return jobs
+		},
 		Only: func(job Job, a string) bool {
+			if job.Harness == "VC02Agree" {
+				return true
+			}
 			return inSet(a, "A", "F", "BC", "DE", "HL", "IX", "IY", "mem")
 		},
 		Bounds: stepBounds("every encoding of the 8-bit ALU / rotate-shift / BIT-SET-RES families; complete A x operand x F cube per encoding"),
@@ -62,8 +88,21 @@ func init() {
 	register(&PropCheck{
 		ID:   "C03",
 		Dirs: []string{"z80"},
-		Jobs: func(tier string, seed int64) []Job { return stepJobs(encsOf("arith16", "incdec16"), "VStep") },
+		Jobs: func(tier string, seed int64) []Job {
+			jobs := stepJobs(encsOf("arith16", "incdec16"), "VStep")
+			for p := 0; p < 4; p++ {
+				jobs = append(jobs, Job{Dir: "z80", Harness: "VC03AdcAdd", Params: []int{p}, Label: fmt.Sprintf("VC03AdcAdd/p%d", p)})
+				jobs = append(jobs, Job{Dir: "z80", Harness: "VC03SbcAdcInverse", Params: []int{p}, Label: fmt.Sprintf("VC03SbcAdcInverse/p%d", p)})
+				jobs = append(jobs, Job{Dir: "z80", Harness: "VC03IncDec", Params: []int{p, 0}, Label: fmt.Sprintf("VC03IncDec/p%d", p)})
+			}
+			jobs = append(jobs, Job{Dir: "z80", Harness: "VC03IncDec", Params: []int{2, 1}, Label: "VC03IncDec/ix"})
+			jobs = append(jobs, Job{Dir: "z80", Harness: "VC03IncDec", Params: []int{2, 2}, Label: "VC03IncDec/iy"})
+			return jobs
+		},
 		Only: func(job Job, a string) bool {
+			if job.Harness != "VStep" {
+				return true
+			}
 			return inSet(a, "F", "BC", "DE", "HL", "IX", "IY", "SP")
 		},
 		Bounds: stepBounds("ADD HL/IX/IY,ss; ADC/SBC HL,ss; INC/DEC ss/IX/IY; complete 2^32 operand pairs x F per encoding"),
@@ -73,8 +112,22 @@ func init() {
 	register(&PropCheck{
 		ID:   "C04",
 		Dirs: []string{"z80"},
-		Jobs: func(tier string, seed int64) []Job { return stepJobs(encsOf("jump", "call", "ret", "stack"), "VStep") },
+		Jobs: func(tier string, seed int64) []Job {
+			jobs := stepJobs(encsOf("jump", "call", "ret", "stack"), "VStep")
+			jobs = append(jobs, Job{Dir: "z80", Harness: "VC04CallRet", Params: []int{0, 0}, Label: "VC04CallRet/call"})
+			for y := 0; y < 8; y++ {
+				jobs = append(jobs, Job{Dir: "z80", Harness: "VC04CallRet", Params: []int{1, y}, Label: fmt.Sprintf("VC04CallRet/callcc%d", y)})
+				jobs = append(jobs, Job{Dir: "z80", Harness: "VC04CallRet", Params: []int{2, y}, Label: fmt.Sprintf("VC04CallRet/rst%02x", y*8)})
+			}
+			for q := 0; q < 6; q++ {
+				jobs = append(jobs, Job{Dir: "z80", Harness: "VC04PushPop", Params: []int{q}, Label: fmt.Sprintf("VC04PushPop/q%d", q)})
+			}
+			return jobs
+		},
 		Only: func(job Job, a string) bool {
+			if job.Harness != "VStep" {
+				return true
+			}
 			return inSet(a, "A", "F", "BC", "DE", "HL", "IX", "IY", "SP", "PC", "mem", "tracelen", "trace")
 		},
 		Bounds: stepBounds("all jump/call/return/RST/PUSH/POP/EX (SP) encodings; all 256 F / B values"),
